@@ -235,8 +235,8 @@ func verifC04_Conc() {
 	rr := sp.LoadBalancer().(*roundRobinLoadBalancer)
 	bases := []uint64{0, 1<<32 - 1, 1<<62 + 1}
 	rr.counter = bases[verifChoose("counterBase", 3)]
-	verifRaceScope(rr, "roundRobinLoadBalancer")
-	verifRaceScope(sp, "ServerPool")
+	verifRaceScopeDeep(rr, "roundRobinLoadBalancer")
+	verifRaceScopeDeep(sp, "ServerPool")
 	threads := verifBound("threads")
 	per := verifBound("selectionsPerThread")
 	replaced := verifBool("replaceList")
@@ -282,4 +282,35 @@ func verifC04_Conc() {
 		after := sp.LoadBalancer().ChooseServer(nil)
 		verifAssert(vIndexOf(newList, after) >= 0, "new-list-after-replacement")
 	}
+}
+
+// verifC04_HashConc: ipHash / headerHash under concurrent selectors: every selection gives the
+// server that the same key gets when selections are made one after the other, and the
+// balancer is free of data races (it is shared by all requests of the pool).
+func verifC04_HashConc() {
+	n := verifChoose("n", 2) + 2
+	servers := vMakeServers(n, false)
+	pol := []string{LoadBalancePolicyIPHash, LoadBalancePolicyHeaderHash}[verifChoose("policy", 2)]
+	lb := NewLoadBalancer(&LoadBalanceSpec{Policy: pol, HeaderHashKey: "X-Key"}, servers)
+	keys := []string{"1.2.3.4", "5.6.7.8", "9.9.9.9"}
+	var want [3]*Server
+	for i, k := range keys {
+		want[i] = lb.ChooseServer(vReq(k, k, true))
+	}
+	verifRaceScopeDeep(lb, "hash load balancer")
+	var got [3]*Server
+	var wg sync.WaitGroup
+	for i := range keys {
+		i := i
+		wg.Add(1)
+		go func() {
+			defer wg.Done()
+			got[i] = lb.ChooseServer(vReq(keys[i], keys[i], true))
+		}()
+	}
+	wg.Wait()
+	for i := range keys {
+		verifAssert(got[i] == want[i], "equal-keys-get-the-same-server-under-concurrency")
+	}
+	verifCover("concurrent-hash-selection")
 }
